@@ -223,6 +223,12 @@ func TestCheck(t *testing.T) {
 			hidx += 100
 		}
 		h := build(t, hidx, nb, false, nil)
+		if h.P.Rejected != nil {
+			run.Case(fmt.Sprint(hidx, "producer"), true)
+			run.Violation("producer-rejected-own-block", fmt.Sprintf("h%d/producer", hidx), h.P.Rejected.Error(), map[string]any{"history": hidx, "height": len(h.P.Raw) + 1, "tx_kinds_at_height": kindAt(h, len(h.P.Raw))})
+			h.P.Close()
+			continue
+		}
 		sum := h.P.KindsSummary()
 		kinds := strings.Join(sum, " ")
 		rich := strings.Contains(kinds, "vote:HALT") && strings.Contains(kinds, "run-plan:HALT") && strings.Contains(kinds, "set-")
@@ -262,6 +268,12 @@ func TestCheck(t *testing.T) {
 		// second class: the same transactions sealed with StateRootInHeader.
 		if !race && run.Want(fmt.Sprintf("h%d/srih", hidx)) {
 			h2 := build(t, hidx, nb, true, h)
+			if h2.P.Rejected != nil {
+				run.Violation("producer-rejected-own-block:state-root-in-header", fmt.Sprintf("h%d/srih", hidx), h2.P.Rejected.Error(), map[string]any{"history": hidx})
+				h2.P.Close()
+				h.P.Close()
+				continue
+			}
 			bad := ""
 			at := 0
 			for i := range h.P.Obs {
